@@ -20,6 +20,7 @@ import (
 	"verif/lww"
 	"verif/mc"
 	"verif/sched/drv"
+	fgate "verif/sched/gate"
 	"verif/sched/vrt"
 )
 
@@ -64,6 +65,23 @@ type cfg struct {
 	conf    map[string]interface{}
 	wl      []lww.Batch // nil = workload
 	family  []string    // workload family: word and the moment the copy starts are environment choices
+	fault   int         // >0: the destination refuses the n-th file
+}
+
+// faultyDir refuses the n-th file the backup wants to create.
+type faultyDir struct {
+	bleve.FileSystemDirectory
+	failAt, n int
+	tripped   bool
+}
+
+func (f *faultyDir) GetWriter(p string) (io.WriteCloser, error) {
+	f.n++
+	if f.n == f.failAt {
+		f.tripped = true
+		return nil, fmt.Errorf("injected fault: no space left on device")
+	}
+	return f.FileSystemDirectory.GetWriter(p)
 }
 
 func zapFiles(store string) []string {
@@ -90,7 +108,9 @@ func body(k cfg) func(c *drv.Ctx) {
 			wl = lww.BuildWord(word)
 			k.batches = len(wl)
 			k.startAt = vrt.Choose(len(wl), "copy-starts-after-batch")
-			c.Observe(fmt.Sprintf("wl=%s,start=%d", word, k.startAt))
+			// destination fault: none, or the n-th file the backup wants to create is refused (full disk)
+			k.fault = vrt.Choose(4, "destination-refuses-nth-file")
+			c.Observe(fmt.Sprintf("wl=%s,start=%d,fault=%d", word, k.startAt, k.fault))
 			c.Count("family_words_run", 1)
 		}
 		src := c.Dir + "/src"
@@ -123,9 +143,10 @@ func body(k cfg) func(c *drv.Ctx) {
 			}
 		})
 		type cp struct {
-			dst    string
-			lo, hi int
-			err    error
+			dst      string
+			lo, hi   int
+			err      error
+			injected bool
 		}
 		var cps []cp
 		vrt.Go(func() {
@@ -140,7 +161,13 @@ func body(k cfg) func(c *drv.Ctx) {
 			}
 			for n := 0; n < k.copies; n++ {
 				x := cp{dst: fmt.Sprintf("%s/dst%d", c.Dir, n), lo: acked}
-				x.err = ic.CopyTo(bleve.FileSystemDirectory(x.dst))
+				if k.fault > 0 {
+					fd := &faultyDir{FileSystemDirectory: bleve.FileSystemDirectory(x.dst), failAt: k.fault}
+					x.err = ic.CopyTo(fd)
+					x.injected = fd.tripped
+				} else {
+					x.err = ic.CopyTo(bleve.FileSystemDirectory(x.dst))
+				}
 				x.hi = submitted
 				cps = append(cps, x)
 				vrt.Point("pt:between-copies")
@@ -149,6 +176,14 @@ func body(k cfg) func(c *drv.Ctx) {
 		wg.Wait()
 		vrt.Free(func() {
 			for n, x := range cps {
+				if x.injected {
+					// the destination refused a file: CopyTo must say so; the source must be unaffected (checked below)
+					if x.err == nil {
+						c.Fail("copyto-swallows-destination-error", "CopyTo #%d returned nil although the destination refused a file", n)
+					}
+					c.Count("backups_that_failed_as_injected", 1)
+					continue
+				}
 				if x.err != nil {
 					c.Fail("copyto-error", "CopyTo #%d failed: %v", n, x.err)
 					continue
@@ -209,6 +244,136 @@ func body(k cfg) func(c *drv.Ctx) {
 			}
 			if err := idx.Close(); err != nil {
 				c.Fail("error:close", "Close: %v", err)
+			}
+		})
+	}
+}
+
+// ---- gated workload families: word x gate choice x the step after which the backup starts are
+// environment choices of the explorer. Every batch in its own client thread, started when everything
+// the previous one set in motion has settled; the backup runs in its own thread.
+func bodyGatedFamily(k cfg) func(c *drv.Ctx) {
+	menu := fgate.Menu() // quick: single gates; thorough: persister+merger pairs as well
+	if mc.Tier() == "thorough" {
+		menu = fgate.MenuPairs()
+	}
+	return func(c *drv.Ctx) {
+		word := k.family[vrt.Choose(len(k.family), "workload")]
+		wl := lww.BuildWord(word)
+		spec := menu[vrt.Choose(len(menu), "gate")]
+		startAt := 1 + vrt.Choose(len(wl), "copy-starts-after-step")
+		src := c.Dir + "/src"
+		var idx bleve.Index
+		vrt.Free(func() {
+			cf := bx.CopyConfig(k.conf)
+			cf["eventCallbackName"] = fgate.Name
+			var err error
+			idx, err = bleve.NewUsing(src, bleve.NewIndexMapping(), scorch.Name, scorch.Name, cf)
+			if err != nil {
+				panic(err)
+			}
+			vrt.WaitIdle()
+		})
+		g := fgate.Arm(spec)
+		defer g.Disarm()
+		acked, submitted := 0, 0
+		var wg vrt.WaitGroup
+		dst := c.Dir + "/dst"
+		lo, hi := 0, 0
+		var cerr error
+		copied := false
+		for j := 1; j <= len(wl); j++ {
+			j := j
+			wg.Add(1)
+			vrt.Go(func() {
+				defer wg.Done()
+				if j > submitted {
+					submitted = j
+				}
+				if err := lww.ExecBatch(idx, wl[j-1]); err != nil {
+					c.Fail("error:batch", "Batch %d: %v", j, err)
+					return
+				}
+				if j > acked {
+					acked = j
+				}
+			})
+			vrt.WaitIdle()
+			if j == startAt {
+				wg.Add(1)
+				vrt.Go(func() {
+					defer wg.Done()
+					lo = acked
+					cerr = idx.(bleve.IndexCopyable).CopyTo(bleve.FileSystemDirectory(dst))
+					hi = submitted
+					copied = true
+				})
+				vrt.WaitIdle()
+			}
+			if g.Step() {
+				vrt.WaitIdle()
+			}
+		}
+		parked := g.Was()
+		g.Open()
+		wg.Wait()
+		vrt.WaitIdle()
+		if parked > 0 {
+			c.Count("executions_in_which_a_gate_parked_a_background_thread", 1)
+		}
+		c.Observe(fmt.Sprintf("wl=%s gate=%s start=%d", word, spec.Label, startAt))
+		c.Count("family_words_x_gates_x_starts_run", 1)
+		vrt.Free(func() {
+			if !copied {
+				c.Fail("copy-did-not-end", "CopyTo had not returned when everything had settled")
+			} else if cerr != nil {
+				c.Fail("copyto-error", "CopyTo failed: %v", cerr)
+			} else if ci, err := bleve.Open(dst); err != nil {
+				c.Fail("copy-does-not-open", "the backup does not open: %v", err)
+			} else {
+				v, _ := ci.GetInternal([]byte("seq"))
+				q := 0
+				if v != nil {
+					q, _ = strconv.Atoi(string(v))
+				}
+				if bad := modelOf(wl, q).Check(ci, ids, keys); len(bad) > 0 {
+					c.Fail("copy-not-a-whole-batch-state", "backup claims batch %d but: %s", q, strings.Join(bad, "; "))
+				}
+				if q < lo {
+					c.Fail("copy-older-than-acknowledged", "backup is at batch %d but batches 1..%d had been acknowledged before it began", q, lo)
+				}
+				if q > hi {
+					c.Fail("copy-from-the-future", "backup is at batch %d > %d submitted when it ended", q, hi)
+				}
+				ci.Close()
+			}
+			if bad := modelOf(wl, len(wl)).Check(idx, ids, keys); len(bad) > 0 {
+				c.Fail("source-affected", "source after the backup: %s", strings.Join(bad, "; "))
+			}
+			sc := bx.Scorch(idx)
+			for round := 0; round < 3; round++ {
+				idx.SetInternal([]byte("tick"), []byte(strconv.Itoa(round)))
+				vrt.WaitIdle()
+			}
+			if st, err := sc.VerifFileState(); err == nil {
+				if len(st.CopySched) > 0 {
+					c.Fail("copy-scheduled-left", "files still protected for a copy after the backup ended: %v", st.CopySched)
+				}
+				dl := zapFiles(filepath.Join(src, "store"))
+				if strings.Join(dl, ",") != strings.Join(st.BoltFiles, ",") {
+					c.Fail("source-stray-files", "source at quiescence holds zap files %v, recorded snapshots name %v (ineligible %v)", dl, st.BoltFiles, st.Ineligible)
+				}
+			}
+			if err := idx.Close(); err != nil {
+				c.Fail("error:close", "Close: %v", err)
+			}
+			if re, err := bleve.Open(src); err != nil {
+				c.Fail("source-does-not-reopen", "source after Close: %v", err)
+			} else {
+				if bad := modelOf(wl, len(wl)).Check(re, ids, keys); len(bad) > 0 {
+					c.Fail("source-affected", "source reopened after the backup: %s", strings.Join(bad, "; "))
+				}
+				re.Close()
 			}
 		})
 	}
@@ -619,7 +784,18 @@ func Scenarios() []drv.Scenario {
 		sc.Doc = "workload family: every word over the batch-shape alphabet {n u b d w x m} after a setup batch is the writer's workload and the backup starts after every possible acknowledgement (environment choices: all words x all start moments)"
 		return sc
 	}
+	gfam := func(name string, conf map[string]interface{}, quick bool) drv.Scenario {
+		sc := drv.Scenario{Name: name, Body: bodyGatedFamily(cfg{name: name, conf: conf, family: lww.GatedWords(mc.Tier())}), Thorough: d0, Class: "backup", MaxSteps: 1500000,
+			Doc: "gated workload family: every word over the batch-shape alphabet x every member of the gate menu (none, single gates, persister+merger pairs) x the step after which the backup starts (environment choices); the backup must return nil, open, be a whole-batch state inside [acknowledged before it began, submitted when it ended]; source unaffected, tidy at quiescence, reopens"}
+		if quick {
+			sc.Quick = d0
+		}
+		return sc
+	}
 	return []drv.Scenario{
+		gfam("gated-family-copy-aggressive-merges", aggressive1, true),
+		gfam("gated-family-copy-unsafe-aggressive-merges", unsafeAgg, true),
+		gfam("gated-family-copy-unsafe-2-persister-workers", map[string]interface{}{"unsafe_batch": true, "numSnapshotsToKeep": 1, "scorchPersisterOptions": map[string]interface{}{"NumPersisterWorkers": 2, "MaxSizeInMemoryMergePerWorker": 1}}, false),
 		fam("family-copy-aggressive-merges", aggressive1, 1),
 		fam("family-copy-unsafe-aggressive-merges", unsafeAgg, 1),
 		fam("family-two-copies-partial-merges", map[string]interface{}{"scorchMergePlanOptions": bx.PartialMergePlan, "numSnapshotsToKeep": 1}, 2),
